@@ -17,7 +17,7 @@ package bpv7
 //@ requires ioOK()
 //@ ensures result == nil
 
-// govc:func (*HopCountBlock).UnmarshalCbor property C01
+// govc:func (*HopCountBlock).UnmarshalCbor property C01 C04
 //@ assigns wstream(r), hcb.Limit, hcb.Count
 //@ ensures rpos(r) >= old(rpos(r))
 //@ case U:
@@ -31,7 +31,7 @@ package bpv7
 //@ assigns wstream(w)
 //@ ensures result == nil ==> wpos(w) == old(wpos(w)) + 1 && tokHead(w, old(wpos(w)), 0, uint64(*bab))
 
-// govc:func (*BundleAgeBlock).UnmarshalCbor property C01
+// govc:func (*BundleAgeBlock).UnmarshalCbor property C01 C04
 //@ assigns rstream(r), *bab
 //@ case U:
 //@ ghost age uint64
@@ -46,7 +46,7 @@ package bpv7
 //@ assigns wstream(w)
 //@ ensures result == nil ==> wpos(w) == old(wpos(w)) + 3 && encTS(w, old(wpos(w)), ct[0], ct[1])
 
-// govc:func (*CreationTimestamp).UnmarshalCbor property C01 C17
+// govc:func (*CreationTimestamp).UnmarshalCbor property C01 C17 C04
 //@ opt inline true
 //@ assigns rstream(r), *ct
 //@ case U:
@@ -60,7 +60,7 @@ package bpv7
 //@ assigns wstream(w)
 //@ ensures result == nil ==> wpos(w) == old(wpos(w)) + 3 && tokHead(w, old(wpos(w)), 0x80, 2) && tokHead(w, old(wpos(w))+1, 0, e.Node) && tokHead(w, old(wpos(w))+2, 0, e.Service)
 
-// govc:func (*IpnEndpoint).UnmarshalCbor property C01 C17
+// govc:func (*IpnEndpoint).UnmarshalCbor property C01 C17 C04
 //@ assigns rstream(r), e.Node, e.Service
 //@ case U:
 //@ ghost node uint64
@@ -109,7 +109,7 @@ package bpv7
 //@ ensures result == nil && pb.CRCType == 2 ==> beUint(pb.CRC, 4) == crcOverZeroed(2, w, old(wpos(w)), wpos(w)) @C03
 //@ ensures pb.Version == old(pb.Version) && pb.BundleControlFlags == old(pb.BundleControlFlags) && pb.CRCType == old(pb.CRCType) && pb.Lifetime == old(pb.Lifetime)
 
-// govc:func (*PrimaryBlock).UnmarshalCbor property C01 C03
+// govc:func (*PrimaryBlock).UnmarshalCbor property C01 C03 C04
 //@ assigns rstream(r), *pb
 //@ ensures result == nil ==> pb.Version == 7 && pb.CRCType <= 2 @C01
 //@ ensures result == nil ==> rpos(r) == pbCrcPos(old(rpos(r)), *pb) + (pb.CRCType != 0 ? 2 : 0) @C03
@@ -141,7 +141,7 @@ package bpv7
 //@ ensures cb.BlockNumber == old(cb.BlockNumber) && cb.BlockControlFlags == old(cb.BlockControlFlags) && cb.CRCType == old(cb.CRCType)
 //@ ensures ref(cb.Value) == old(ref(cb.Value))
 
-// govc:func (*CanonicalBlock).UnmarshalCbor property C01 C03
+// govc:func (*CanonicalBlock).UnmarshalCbor property C01 C03 C04
 //@ assigns rstream(r), *cb
 //@ ensures result == nil ==> cb.CRCType <= 2 && cb.Value != nil @C01
 //@ ensures result == nil ==> rpos(r) == old(rpos(r)) + 6 + (cb.CRCType != 0 ? 2 : 0) @C03
